@@ -222,6 +222,10 @@ impl PropCheck for C13 {
     fn case_from_json(&self, v: &Value) -> Result<Case, String> {
         serde_json::from_value(v["case"].clone()).map_err(|e| e.to_string())
     }
+
+    fn owns_case(&self, v: &Value) -> bool {
+        v["link_probe"].as_bool() != Some(true) && v.get("exhaustive").is_none()
+    }
 }
 
 fn permutations(n: usize, seed: u64) -> Vec<Vec<usize>> {
@@ -597,7 +601,11 @@ fn exhaustive(report: &mut engine::Report, findings: &Findings) {
                         continue;
                     }
                 }
-                for (sfx_i, sfx) in ["", ".wxml", ".wxs", ".js"].iter().enumerate() {
+                for (sfx_i, sfx) in ["", ".wxml", ".wxs", ".js", ".wxml.wxml", ".wxs.wxs", ".wxml.wxs", ".wxs.wxml"].iter().enumerate() {
+                    // (doubled suffixes: only ONE optional suffix is ignored; sampled over the shorter spellings)
+                    if sfx_i >= 4 && rel0.len() > 4 {
+                        continue;
+                    }
                     if rel.ends_with('.') && !sfx.is_empty() {
                         continue;
                     }
@@ -651,6 +659,141 @@ fn exhaustive(report: &mut engine::Report, findings: &Findings) {
     }
 }
 
+// ---------------------------------------------------------------------------------------------------------------
+// report / link consistency: whatever a reference resolves to — also where the statement is silent about the spelling
+// (empty segments, doubled suffixes) — the dependency queries report THE target the bundle links to. The file and the
+// script are registered under the reported paths; the bundle must then find them.
+
+#[derive(Clone, Debug, Serialize, Deserialize)]
+pub struct LinkCase {
+    pub base: String,
+    pub src: String,
+    pub link_probe: bool,
+}
+
+impl LinkCase {
+    pub fn source(&self) -> String {
+        let q = crate::util::js_str(&self.src);
+        let _ = q;
+        format!("<import src=\"{s}\"/><wxs module=\"m\" src=\"{s}\"/>[{{{{m.k}}}}]<include src=\"{s}\"/><template is=\"t1\"/>", s = self.src)
+    }
+}
+
+pub fn link_cases(tier: Tier) -> Vec<LinkCase> {
+    let bases: &[&str] = if tier == Tier::Quick { &["a", "a/b", "b/a/a"] } else { &["a", "b", "a/a", "a/b", "b/a", "a/b/a", "b/a/a/b"] };
+    let segs = seg_strings(if tier == Tier::Quick { 3 } else { 4 });
+    let mut out = vec![];
+    for base in bases {
+        for rel0 in &segs {
+            for abs in [false, true] {
+                let rel = if abs { format!("/{}", rel0) } else { rel0.clone() };
+                for sfx in ["", ".wxml", ".wxs", ".wxml.wxml", ".wxs.wxs", ".wxs.wxml"] {
+                    if (rel.ends_with('.') || rel.ends_with('/') || rel.is_empty()) && !sfx.is_empty() {
+                        continue;
+                    }
+                    if sfx.len() > 5 && !(rel0.len() <= 3 || rel0.contains("..")) {
+                        continue;
+                    }
+                    // an empty `src` is a missing one (answered with a diagnostic): not a reference
+                    if rel.is_empty() {
+                        continue;
+                    }
+                    out.push(LinkCase { base: base.to_string(), src: format!("{}{}", rel, sfx), link_probe: true });
+                }
+            }
+        }
+    }
+    out
+}
+
+pub struct C13Link;
+
+impl PropCheck for C13Link {
+    type Case = LinkCase;
+
+    fn strategy(&self) -> BoxedStrategy<LinkCase> {
+        let all = link_cases(Tier::Quick);
+        (0..all.len()).prop_map(move |i| all[i].clone()).boxed()
+    }
+
+    fn eval(&self, w: Option<&mut Worker>, cases: &[LinkCase]) -> Result<Vec<Outcome>, String> {
+        let w = w.ok_or("no worker")?;
+        let mut outs: Vec<Outcome> = vec![];
+        let mut items = vec![];
+        let mut index = vec![];
+        for (ci, c) in cases.iter().enumerate() {
+            let mut out = Outcome::default();
+            let src = c.source();
+            out.sample = Some(json!({"base": c.base, "source": src}));
+            out.labels.push(format!("link-probe:{}", if has_empty_segment(&c.src) { "empty-segment" } else if c.src.matches(".wx").count() >= 2 { "doubled-suffix" } else { "plain" }));
+            let built = std::panic::catch_unwind(|| {
+                let mut g = glass_easel_template_compiler::TmplGroup::new();
+                g.add_tmpl(&c.base, &src);
+                let d: Vec<String> = g.direct_dependencies(&c.base).map(|i| i.collect()).unwrap_or_default();
+                let sd: Vec<String> = g.script_dependencies(&c.base).map(|i| i.collect()).unwrap_or_default();
+                let mut bundle = None;
+                // a reference to the file itself is a cycle, not a link
+                if !d.iter().any(|p| p == &c.base) {
+                    for p in &d {
+                        g.add_tmpl(p, "<template name=\"t1\">T1</template>INC");
+                    }
+                    for p in &sd {
+                        g.add_script(p, "module.exports = { k: 'S' }");
+                    }
+                    bundle = g.get_tmpl_gen_object_groups().ok();
+                }
+                (d, sd, bundle)
+            });
+            match built {
+                Err(_) => out.failures.push(Failure { sig: "C13|link-probe|panic".into(), tag: None, what: format!("compiler panicked for file {:?} with source {:?}", c.base, src), detail: json!({}) }),
+                Ok((d, sd, bundle)) => {
+                    if d.len() != 2 || sd.len() != 1 || d[0] != d[1] {
+                        out.failures.push(Failure { sig: "C13|link-probe|dependency-count".into(), tag: None, what: format!("file {:?} with source {:?}: direct_dependencies = {:?}, script_dependencies = {:?} (one import, one include and one script reference with the same src)", c.base, src, d, sd), detail: json!({}) });
+                    } else if let Some(b) = bundle {
+                        items.push(json!({"bundle": b, "entry": c.base}));
+                        index.push((ci, d[0].clone(), sd[0].clone()));
+                    } else {
+                        out.labels.push("link-probe:self-reference (not judged)".into());
+                    }
+                }
+            }
+            outs.push(out);
+        }
+        if !items.is_empty() {
+            let resp = w.request(&json!({"kind":"link_probe","items":items})).map_err(|e| e.0)?;
+            for (k, (ci, d, sd)) in index.iter().enumerate() {
+                let c = &cases[*ci];
+                let r = &resp["results"][k];
+                let out = &mut outs[*ci];
+                out.units = 1;
+                out.nt.push(fnv64(format!("{}|{}", c.base, c.src).as_bytes()));
+                let text = r["text"].as_str().map(|s| s.to_string()).unwrap_or_else(|| format!("<error {}>", r["error"].as_str().unwrap_or("")));
+                if text != "[S]|INC|T1" {
+                    out.failures.push(Failure {
+                        sig: format!("C13|link-probe|{}", if !text.contains("[S]") { "script" } else if !text.contains("INC") { "include" } else { "import" }),
+                        tag: None,
+                        what: format!("file {:?} with src {:?}: the dependency queries report the template {:?} and the script {:?}; with a file and a script registered under exactly these paths the bundle renders {:?} instead of \"[S]|INC|T1\" (the link does not go to the reported target)", c.base, c.src, d, sd, text),
+                        detail: json!({"source": c.source()}),
+                    });
+                }
+            }
+        }
+        Ok(outs)
+    }
+
+    fn case_json(&self, case: &LinkCase) -> Value {
+        json!({"case": serde_json::to_value(case).unwrap(), "source": case.source(), "link_probe": true})
+    }
+
+    fn case_from_json(&self, v: &Value) -> Result<LinkCase, String> {
+        serde_json::from_value(v["case"].clone()).map_err(|e| e.to_string())
+    }
+
+    fn owns_case(&self, v: &Value) -> bool {
+        v["link_probe"].as_bool() == Some(true)
+    }
+}
+
 pub fn run(tier: Tier, seed: u64, findings: &Findings) -> i32 {
     let started = Instant::now();
     let cfg = RunCfg { prop: "C13", tier, seed };
@@ -659,6 +802,10 @@ pub fn run(tier: Tier, seed: u64, findings: &Findings) -> i32 {
     exhaustive(&mut report, findings);
     let cases = tier.pick(3000, 120_000);
     report.merge(engine::run_generated(&check, &cfg, cases, 4, 16, findings, 0));
+    report.merge(super::run_regress(&C13Link, &cfg, findings));
+    let mut r = engine::run_explicit(&C13Link, &cfg, link_cases(tier), 40, 16, findings);
+    r.extra.insert("link_probe_cases".into(), json!(r.evaluations));
+    report.merge(r);
     engine::finish(
         Finish {
             cfg,
@@ -678,6 +825,9 @@ pub fn run(tier: Tier, seed: u64, findings: &Findings) -> i32 {
 }
 
 pub fn replay(v: &Value, path: &str, findings: &Findings) -> i32 {
+    if v["case"]["link_probe"].as_bool() == Some(true) {
+        return super::replay_generic(&C13Link, "C13", v, path, findings);
+    }
     if v["case"].get("exhaustive").is_some() {
         // exhaustive findings are re-found by the exhaustive sweep itself
         let mut report = engine::Report::default();
